@@ -1,5 +1,6 @@
 import Driver.Registry
 import Driver.Exec
+import Driver.ItemSpace
 import Driver.Relative
 import Driver.Export
 import Driver.Codec
@@ -13,6 +14,7 @@ def main (args : List String) : IO UInt32 := do
   match args with
   | ["registry"] => Driver.Registry.main; return 0
   | ["exec"] => Driver.Exec.main; return 0
+  | ["items"] => Driver.ItemSpace.main; return 0
   | ["relative"] => Driver.Relative.main; return 0
   | ["export"] => Driver.Export.main; return 0
   | ["codec"] => Driver.Codec.main; return 0
